@@ -17,7 +17,7 @@ from harness.common import REJECT, xb, unx, batch_parallel, pmap
 PROPERTY = "C01"
 DRIVERS = ["drv_c01"]
 ANCHORS = [
-    ("buidl/pecc.py", "PrivateKey.__init__"), ("buidl/pecc.py", "PrivateKey.deterministic_k"),
+    ("buidl/pecc.py", "PrivateKey.__init__"), ("buidl/pecc.py", "PrivateKey.parse"), ("buidl/pecc.py", "PrivateKey.wif"), ("buidl/pecc.py", "PrivateKey.deterministic_k"),
     ("buidl/pecc.py", "PrivateKey.sign"), ("buidl/pecc.py", "S256Point.verify"),
     ("buidl/pecc.py", "Signature.der"), ("buidl/pecc.py", "Signature.parse"),
     ("buidl/pecc.py", "S256Point.__rmul__"), ("buidl/pecc.py", "Point.__rmul__"), ("buidl/pecc.py", "Point.__add__"),
@@ -34,7 +34,10 @@ RULE = ("secrets and digests: the quantifier's boundary list (1, 2, 3, n-1, n-2,
         "their catalogue (s+n, s+2n, r+n, s = n, p-1, p), each query issued twice; histories executed in one "
         "process on SHARED objects (one PrivateKey signing several digests repeatedly, one Signature object "
         "verified under several keys/digests right-first and wrong-first, the keys d and n-d on one digest), every "
-        "step compared with the stateless model and specification on the CURRENT arguments.  A case is non-trivial "
+        "step compared with the stateless model and specification on the CURRENT arguments; key CONFIGURATIONS: "
+        "PrivateKey(d, network, compressed) for all 8 combinations and PrivateKey.parse of both WIF forms (mainnet, "
+        "testnet), each signing / deriving nonces with the answer required to equal the configuration-free model "
+        "and RFC 6979 / low-S specification.  A case is non-trivial "
         "when it is not rejected by a range/length check alone; distinct = distinct request lines")
 CLAUSES = {
     "signature is the deterministic RFC 6979 signature":
@@ -76,16 +79,39 @@ def _point(tok):
     return E.S256Point.parse(b)
 
 
+CONFIGS = [f"c{c}:{n}" for c in (1, 0) for n in ("mainnet", "testnet", "signet", "regtest")] + \
+          [f"wif{c}:{n}" for c in (1, 0) for n in ("mainnet", "testnet")]
+
+
+def mk_key(d, cfg=None):
+    """the PrivateKey for secret d under a configuration: None = PrivateKey(d); `c<0|1>:<network>` =
+    PrivateKey(d, network=…, compressed=…); `wif<0|1>:<network>` = PrivateKey.parse of the (un)compressed WIF.
+    Neither the model nor the specifications have these options: the expected answers do not depend on them."""
+    import buidl.ecc as E
+    if not cfg:
+        return E.PrivateKey(d)
+    kind, net = cfg.split(":")
+    if kind.startswith("wif"):
+        return E.PrivateKey.parse(E.PrivateKey(d, network=net).wif(compressed=kind == "wif1"))
+    return E.PrivateKey(d, network=net, compressed=kind == "c1")
+
+
+def split_op(tok):
+    """`op@cfg` -> (op, cfg)"""
+    op, _, cfg = tok.partition("@")
+    return op, (cfg or None)
+
+
 def _impl(t):
     import buidl.ecc as E
-    op = t[0]
+    op, cfg = split_op(t[0])
     if op in ("detk", "spec_rfc6979"):
-        return str(E.PrivateKey(int(t[1])).deterministic_k(int(t[2])))
+        return str(mk_key(int(t[1]), cfg).deterministic_k(int(t[2])))
     if op == "sign":
-        sig = E.PrivateKey(int(t[1])).sign(int(t[2]))
+        sig = mk_key(int(t[1]), cfg).sign(int(t[2]))
         return f"{sig.r} {sig.s}"
     if op == "signwith":
-        pk = E.PrivateKey(int(t[2]))
+        pk = mk_key(int(t[2]), cfg)
         k = int(t[1])
         pk.deterministic_k = lambda z: k      # the nonce is chosen; everything else is PrivateKey.sign
         sig = pk.sign(int(t[3]))
@@ -126,13 +152,13 @@ def impl_history(lines):
     for line in lines:
         t = line.split(" ")
         try:
-            op = t[0]
+            op, cfg = split_op(t[0])
             if op in ("sign", "detk", "spec_rfc6979"):
-                if ("sk", t[1]) not in pool:
-                    pk = pool[("sk", t[1])] = E.PrivateKey(int(t[1]))
+                if ("sk", t[1], cfg) not in pool:
+                    pk = pool[("sk", t[1], cfg)] = mk_key(int(t[1]), cfg)
                     for comp in (True, False):
                         pool.setdefault(("pt", xb(pk.point.sec(comp))), pk.point)
-                pk = pool[("sk", t[1])]
+                pk = pool[("sk", t[1], cfg)]
                 if op == "sign":
                     sig = pk.sign(int(t[2]))
                     pool.setdefault(("sig", sig.r, sig.s), sig)
@@ -157,12 +183,16 @@ def impl_history(lines):
 
 def impl_key(line):
     t = line.split(" ")
-    t[0] = IMPL_ALIAS.get(t[0], t[0])
+    op, cfg = split_op(t[0])
+    t[0] = IMPL_ALIAS.get(op, op) + (f"@{cfg}" if cfg else "")
     return " ".join(t)
 
 
 def model_line(line):
-    return line
+    """the driver request: the key configuration is dropped (the model and the specifications have none)"""
+    t = line.split(" ")
+    t[0] = split_op(t[0])[0]
+    return " ".join(t)
 
 
 # --------------------------------------------------------------------------------- direct predicates
@@ -171,7 +201,7 @@ def p_sign_verify(c):
     and survives DER"""
     import buidl.ecc as E
     d, z = c["d"], c["z"]
-    pk = E.PrivateKey(d)
+    pk = mk_key(d, c.get("cfg"))
     sig = pk.sign(z)
     got = {"verify": pk.point.verify(z, sig) is True,
            "verify_parsed_key": c.get("compressed") is None or
@@ -394,6 +424,22 @@ def run(ctx):
     lines.append(("verify:inf_key", f"verify x {rng.getrandbits(256)} {rng.randrange(1, N)} {rng.randrange(1, N)}", False))
     lines.append(("verify:bad_key", f"verify x05{'11' * 32} 1 1 1", True))
 
+    # ---- key configuration: every (compressed, network) combination and keys parsed from both WIF forms; the answers
+    #      must be the same RFC 6979 nonce and the same low-S signature as for the default key
+    cfg_hist = {}
+    for i in range(ctx.n(48)):
+        d, z = pairs[(i * 5 + 1) % len(pairs)] if i % 3 else (rng.randrange(1, N), rng.getrandbits(256))
+        if not (1 <= d < N):
+            continue
+        cfg = CONFIGS[i % len(CONFIGS)]
+        lines.append(("sign@cfg", f"sign@{cfg} {d} {z}", True))
+        lines.append(("detk@cfg", f"detk@{cfg} {d} {z}", True))
+        lines.append(("spec_rfc6979@cfg", f"spec_rfc6979@{cfg} {d} {z}", True))
+        rec.count("config:" + cfg)
+        if i % 2 == 0:
+            preds.append(("sign_verify", {"d": d, "z": z, "cfg": cfg, "compressed": None}))
+        cfg_hist.setdefault(i % 4, []).append((cfg, d, z))
+
     # ---- constructed signatures with a chosen small s: r = x(kG) mod n, z = (s k - r d) mod n.  (r, s + n) is below p
     #      only when s < p - n ≈ 2^128, so a range check against the wrong modulus shows only on such signatures
     small_s = [1, 2, 3, P - N - 1, P - N, P - N + 1, 2**127 - 1, 2**64] + [rng.getrandbits(rng.choice([16, 100, 126, 127]))
@@ -430,6 +476,12 @@ def run(ctx):
     def kstep(d, z):
         return (f"detk {d} {z}", [f"detk {d} {z}", f"spec_rfc6979 {d} {z}"])
 
+    for grp in cfg_hist.values():      # differently configured key objects for the SAME secret in one process
+        cfg0, d, z = grp[0]
+        steps = []
+        for cfg, _, _ in grp[:6]:
+            steps += [(f"sign@{cfg} {d} {z}", [f"sign {d} {z}"]), (f"detk@{cfg} {d} {z}", [f"detk {d} {z}", f"spec_rfc6979 {d} {z}"])]
+        hists.append(("history:key_configurations", steps + steps[:2]))
     for sec, z, r, s0 in small_hist:   # every query twice, on the same point and Signature objects
         hists.append(("history:small_s", [vstep(sec, z, r, s0), vstep(sec, z, r, s0 + N), vstep(sec, z, r + N, s0),
                                           vstep(sec, z, r, s0), vstep(sec, z, r, s0 + N), vstep(sec, z + 1, r, s0)]))
